@@ -61,6 +61,14 @@ func genMatchedString(g *hx.Gen, rs []hx.RuleSpec) string {
 			path = "/" + path
 		}
 	}
+	if g.Chance(12) {
+		// the same path in another case: a pattern with upper-case letters must not match it, nor the reverse
+		if g.Bool() {
+			path = strings.ToLower(path)
+		} else {
+			path = strings.ToUpper(path)
+		}
+	}
 	q := ""
 	switch g.Intn(8) {
 	case 0:
